@@ -1,6 +1,6 @@
 package mem2reg
 
-// F104 (C13; fixed by cf63f0b): mem2reg promoted the first load of n in a loop body
+// F104 (C13; fixed by 8b6f92d): mem2reg promoted the first load of n in a loop body
 // ('loop { if n >= i { break; } n = n + 1u; ... }') to the variable's initial
 // value: n was 0 at the top of every iteration.
 // Copy into /repo/dxil/internal/passes/mem2reg and run  go test -vet=off -count=1 -run TestF104 ./dxil/internal/passes/mem2reg
